@@ -50,17 +50,17 @@ type KnownHit struct {
 
 // Ctx is handed to a case.
 type Ctx struct {
-	ID     string
-	Tier   string
-	Case   int
-	Seed   uint64
-	R      *rand.Rand
-	res    *CaseResult
-	feat   map[string]bool
+	ID      string
+	Tier    string
+	Case    int
+	Seed    uint64
+	R       *rand.Rand
+	res     *CaseResult
+	feat    map[string]bool
 	fpParts []string
-	known  map[string]bool // known-finding signatures (read-only)
-	mark   func(string)
-	mu     sync.Mutex // monitors call into the context from callback goroutines too
+	known   map[string]bool // known-finding signatures (read-only)
+	mark    func(string)
+	mu      sync.Mutex // monitors call into the context from callback goroutines too
 }
 
 // CrashContext records (durably, before the risky step) what the case is about to do, so that a worker
@@ -190,7 +190,7 @@ type Check struct {
 	MinNontrivial func(tier string) int
 	// RequiredFeatures must all be seen at least once (coverage floor).
 	RequiredFeatures func(tier string) []string
-	CaseTimeout time.Duration
+	CaseTimeout      time.Duration
 	// InProc > 1 runs that many cases concurrently inside one worker (for cases that mostly sleep).
 	InProc int
 	// Workers overrides the number of worker processes (0 = min(16, cases)).
@@ -205,7 +205,7 @@ type Check struct {
 
 var registry = map[string]*Check{}
 
-func Register(c *Check) { registry[c.ID] = c }
+func Register(c *Check)       { registry[c.ID] = c }
 func Lookup(id string) *Check { return registry[id] }
 func IDs() []string {
 	ids := []string{}
